@@ -1,9 +1,44 @@
 PROP = dict(
     harness="c16", level="exploration",
     make=["build/bin/c16", "build/gen/x86_forms.txt"],
-    quick=dict(cases=40000, max_size=60, workers=16),
-    thorough=dict(cases=1600000, max_size=120, workers=16, timeout=3600),
-    rule=("placeholder"),
-    assumptions=[],
+    quick=dict(cases=80000, max_size=60, workers=16),
+    thorough=dict(cases=1600000, max_size=80, workers=16, timeout=3600),
+    rule=("a case = cfg [arch x64|x86|a64, emitter kind Assembler|Builder|Compiler, flags: logger / strict validation / perturbed heap / static "
+          "arena buffer / RA debug logging, final step reset(soft)|reset(hard)|reinit, object mix (both recycled | recycled holder + fresh "
+          "emitter | fresh holder + recycled emitter), encoding options, flatten+relocate] + a HISTORY of ops applied to one long-lived "
+          "CodeHolder and six long-lived emitters (init(arch, base, cpu features), attach, generate(P_i) with or without finalize / "
+          "flatten+relocate, 15 kinds of swallowed errors, reset soft/hard, reinit, detach, detach+re-attach, dangling instruction "
+          "options/extra register/inline comment, logger on/off) + the final program P_final (instructions from a fixed table and from the "
+          "x86 ISA database, anonymous/named/local/external labels, binds, forward/backward jumps, align, embedded data, embed_label / "
+          "embed_label_delta relocations, absolute jumps (address table), label memory operands, extra sections, const pools, bulk "
+          "labels/relocations that cross arena blocks; for the Compiler also functions over virtual registers with arguments, arithmetic, "
+          "stack slots, local/global constants, loops, forward branches, invokes, annotated indirect jumps). The state of the holder after "
+          "P_final on the recycled objects (section table, bytes, layout, labels + fixup chains, named-label lookups, relocations incl. "
+          "decoded expressions, cross-section fixups, counters, results of every emitter call, Builder/Compiler node list, "
+          "flatten/relocate image, error-handler messages, logger text) must equal that of fresh objects with the same flags, which in "
+          "turn must equal plain fresh objects; after every reset()/detach() the holder / emitter must look default-constructed; the "
+          "attached-emitter list must stay consistent; a function compiled after another one by the same Compiler must equal the function "
+          "compiled alone. Non-trivial = a generation that left a non-empty holder or emitter is followed by reset/reinit/detach+attach "
+          "and P_final is non-empty; distinct = distinct case text. A deterministic sweep of 486 (arch x kind x final step x mix x flag set) "
+          "cases runs first."),
+    assumptions=["ASan+UBSan build with ASMJIT_ASSERT active; malloc/realloc/free of AsmJit wrapped by the harness (--wrap) to perturb padding and fill bytes",
+                 "API domain enforced by construction (header docs / assertions): no fixup-creating reference to a label bound in another section, "
+                 "finalize() once per Builder/Compiler per initialisation, flatten()/relocate_to_base() once per initialisation, Builder labels bound once, "
+                 "no emitter is used for generation while detached (only the documented kNotInitialized error path is exercised)",
+                 "reinit() keeps environment, CPU features, base address, logger, error handler and attached emitters (header documentation); the fresh reference is initialised with the same values",
+                 "diagnostic/encoding options are user settings that persist by design and are set identically on fresh and recycled emitters",
+                 "error-message text may differ between logger on/off (RA annotations); it is only compared between runs with equal flags"],
 )
-META = dict(engine="rapidcheck", technique="", level_text="", level_note="", design_ref="DESIGN.md section 4, C16")
+META = dict(
+    engine="rapidcheck + deterministic sweep; malloc wrapper; ASan/UBSan/LSan",
+    technique="differential property-based testing: recycled objects after a generated history vs. fresh objects, under logger/validation/heap/arena variations",
+    level_text=("Exploration: tens of thousands (quick) to millions (thorough) of generated histories over Assembler/Builder/Compiler for x86-64, x86-32 and "
+                "AArch64 end with the same final program on recycled and on fresh objects; every observable part of the CodeHolder, the results of all "
+                "emitter calls, the node list, the flattened/relocated image, error messages and logger text are compared byte for byte; fresh runs with "
+                "logger / validation / perturbed heap / static arena are compared with a plain fresh run; invariants of reset and detached objects and "
+                "the attached-emitter list are checked after each history op. Not a proof: absence of failures in the explored histories."),
+    level_note=("Trusts the harness (~1500 lines) and the sanitizers. Memory growth (an arena that is not rewound on soft reset) and equivalent block-size "
+                "changes are invisible by design (output must not depend on them). Two genuine findings are recorded as known and excluded by construction "
+                "(histories avoid jump annotations; an emitter-owned error handler left by run_passes() is dropped before the final program)."),
+    design_ref="DESIGN.md section 4, C16",
+)
